@@ -1,6 +1,6 @@
 #!/bin/sh
 # Regenerate coq/_CoqProject (every *.v in coq/) and the coq_makefile Makefile when the file list changed.
-cd "$(dirname "$0")/../coq" || exit 2
+cd "${1:-$(dirname "$0")/../coq}" || exit 2
 {
   echo "-Q . NV"
   echo "-arg -w -arg -notation-overridden,-deprecated-hint-without-locality,-deprecated-instance-without-locality,-extraction-opaque-accessed,-extraction"
